@@ -245,10 +245,11 @@ def finish(report, level='model_checking', extra=None):
         with open(path, 'w') as f:
             json.dump(body, f, indent=1, sort_keys=True)
         emitted[key] = {'path': path, 'count': 1, 'message': v.get('message')}
-    for key, info in emitted.items():
+    for n, (key, info) in enumerate(emitted.items()):
         print('VIOLATION property=%s replay=%s' % (prop, info['path']))
-        print('  (%d witnesses) %s' % (info['count'],
-                                     str(info['message'])[:600]))
+        if n < 12:
+            print('  (%d witnesses) %s' % (info['count'],
+                                         str(info['message'])[:600]))
     wall = time.perf_counter() - report.t0
     coverage = {
         'states': report.states,
